@@ -5,7 +5,7 @@ def build(tier):
     obs = []
     base = dict(ext_t=False, ext_m=False, out_i=0, excl_root=False)
     # toctrees: subdirectories excluded by pattern, auto-excluded, empty after exclusion, nested below directories without cmake files
-    for sk in (["S2", "S4"] if quick else ["S2", "S2b", "S3", "S4", "S5"]):
+    for sk in (["S2q", "S4"] if quick else ["S2", "S2b", "S3", "S4", "S5"]):
         for ae in (False, True):
             obs.append(trees.tree_ob("C14", sk, "tree", dict(base, recursive=True, auto_ex=ae, has_prefix=False, sep2=False),
                                      timeout=400 if quick else 2400))
